@@ -1,6 +1,7 @@
 """C04 — string, number and identifier tokens keep exactly the value the SQL text denotes."""
 import json, re, sys
 from tools.harness import common, lexh, hist
+from tools.harness import slots as slotsh
 from tools.harness.common import DIALECTS
 from tools.harness.lexh import enc, dec, dec_list
 
@@ -17,6 +18,8 @@ THEOREMS = ['MindsVerif.Props.C04.' + n for n in (
     'C04_prelex_exact', 'C04_prelex_prefix', 'C04_prelex_literal', 'C04_history_identifier', 'C04_history_identifier_mindsdb',
     'C04_history_identifier_mysql', 'C04_history_identifier_sqlite', 'C04_history_constant', 'C04_history_obs_pure',
     'C04_memo_iff', 'C04_witness_stale_cache',
+    # round 6: constant slots (every position that holds a constant; second string printer json_to_sql, Model/CodecDq.lean)
+    'C04_slot_readback', 'C04_slot_readback_dq', 'C04_codec_roundtrip_dq', 'C04_witness_repr_cell',
     # history / regression theorems about the OLD variants (Model/Lex.lean: string codec before 2843e02, identifier codec
     # before the doubled back-quote); no stream drives these models while codecFixed / bqDoubled are on
     'C04_old_identifier_partial', 'C04_old_identifier_mindsdb', 'C04_old_identifier_mysql', 'C04_old_identifier_sqlite',
@@ -40,6 +43,9 @@ ASSUME = [
     'pre-lexing step of parse_sql (re.sub of the trailing [\\s;] run) is hand-modelled (Model/PreLex.lean); tie = `prelex` stream: the text the real '
     'parse_sql hands to lexer.tokenize is captured (get_lexer_parser wrapped for the call) and compared with the model, and `\\s` is compared with '
     'the live re module over all of Unicode (`pyspace`)',
+    'constant slots: WHICH positions hold a constant is discovered at run time (tools/harness/slots.py: corpus of the test-suite statements + templates, '
+    'every string / number of every tree probed with a sentinel); that each slot prints its value with one of the two modelled string printers '
+    '(Codec.constantToString, Codec.jsonStrToSql) is the `slot-print` stream, that the text is read back at the same place is probe P8; numbers in slots are probe-only',
     'object histories: the live printers are modelled as functions of the current attributes (Hist.runLive); tie = `ident-history` stream (same '
     'list edits / observations on a real Identifier) and the history probe over every node class the templates of tools/harness/hist.py reach; '
     'Python list semantics of pop / insert / item assignment are transcribed for valid indices only',
@@ -353,6 +359,48 @@ def probe_ident_history(dialect, evs, kfwords):
     return None
 
 
+# ------------------------------------------------------------------------------------------ round 6: constant slots
+SLOT_CORE = ['a' + c + 'b' for c in lexh.CTRL] + [
+    '\r\n', "'", '"', '\\', "\\'", '\\"', '\\n', '\\x00', '\x00', '\xa0', '\u200b', '\ufeff', 'e\u0301', '\U0001f600', '', ' ', '%s', ':x', "it's",
+    'a"b', '`', '\x7f', '\x1b', ';', '--', '/*', 'x' * 300, "''", '""', '\\\\', 'a\\', '{}', 'null', 'true', '1', "' OR '1'='1", '\xe9', '${x}', '\\u0041']
+SLOT_NUMS = {'int': [0, 7, 10 ** 20, 2 ** 63], 'float': [0.5, 1.5e-07, 1e+16, 123.456]}
+
+
+def slot_classes(slot, v, txt):
+    """KF classes of a slot failure"""
+    out = []
+    if slot['kind'] == 'raw' and isinstance(v, float) and ('e' in repr(v)) and (txt is None or repr(v) in txt):
+        out.append('json-float-exponent')
+    return out
+
+
+def slot_applies(slot, v):
+    """'' in a raw ATTRIBUTE slot means "clause absent" for the printers (`SHOW TABLES LIKE ''`): no constant is placed"""
+    return not (v == '' and slot['kind'] == 'raw' and isinstance(slot['path'][-1], str))
+
+
+def probe_slot(slot, v, tree=None):
+    """P8: the value placed in ANY position of a statement that holds a constant (VALUES cell, SET value, CASE branch,
+    function argument, IN list, LIMIT, USING / PARAMETERS entry, SHOW … LIKE, …) is found again, same type, at the same
+    place when the statement's own text is parsed"""
+    txt = None
+    try:
+        _, txt = slotsh.fill(slot, v, tree)
+        got = slotsh.read_back(slot, txt)
+        ok = type(got) is type(v) and (got == v) and (not isinstance(v, float) or repr(got) == repr(v))
+    except Exception as e:
+        got, ok = '%s: %s' % (type(e).__name__, str(e)[:80]), False
+    if ok:
+        return None, txt
+    cls = slot_classes(slot, v, txt)
+    shown = txt if txt is None or len(txt) < 400 else txt[:200] + ' … ' + txt[-150:]
+    return dict(kind='slot', desc='%s holding %r in the slot %s prints %r; parsed again the slot holds %r' % (
+        slot['sql'] if len(slot['sql']) < 160 else slot['sql'][:160] + '…', v if not isinstance(v, str) or len(v) < 80 else v[:80] + '…', slot['sig'], shown, got),
+        dialect=slot['dialect'], sig=slot['sig'], sql=slot['sql'], path=slot['path'], slotkind=slot['kind'],
+        value=v if isinstance(v, str) else None, number=None if isinstance(v, str) else repr(v), classes=cls,
+        **{'class': 'slot/%s/%s' % (slot['sig'], '+'.join(cls) or 'NEW')}), txt
+
+
 # ------------------------------------------------------------------------------------------ streams
 PLAIN_WORDS = ['t1$id', 'tbl1$x', '1a$b', 'a$', '$a', '$', 'a$$b', '1$', '$1', 'a$1', 'A_1$b2', 'x', 'Ab', '_x', '1a', 'a1', '9_', 'col$']
 WORDS = PLAIN_WORDS + ['a', 'B1', '_x', '1a', '1', 'x$', 'é', 'a b', 'a.b', 'ıf', 'Ab', 'a-b', '*', '"a"', "'a'", 'a\nb', ' ',
@@ -434,7 +482,7 @@ def run(chk):
                 for d in DIALECTS:
                     ask(('read', d, q, q + b + q), READ % (d, enc(q + b + q)))
     # (iii) encoders
-    values = bodies_parse + rand_bodies + ctrl_bodies
+    values = list(dict.fromkeys(bodies_parse + rand_bodies + ctrl_bodies + SLOT_CORE))
     for v in values:
         ask(('enc', v), '%s - %s' % ('enc2' if FIXED else 'enc', enc(v)))
     # identifiers: parts over word pools (every keyword word of every dialect included)
@@ -512,6 +560,7 @@ def run(chk):
             c[2] = info
 
     from mindsdb_sql.parser.ast import Constant, Identifier
+    model_enc = {}
     if outs is not None:
         for meta, o in zip(metas, outs):
             kind = meta[0]
@@ -573,6 +622,7 @@ def run(chk):
             elif kind == 'enc':
                 v = meta[1]
                 corr['encode'][0] += 1
+                model_enc[v] = dec(o)
                 real = Constant(v).to_string()
                 if enc(real) != o:
                     diverge('encode', dict(value=v, model=dec(o), impl=real))
@@ -703,12 +753,22 @@ def run(chk):
         evs = gen_ident_history(rngh)
         d = DIALECTS[i % 3]
         lines2.append(ident_history_line(d, evs)); metas2.append(('hist', d, evs))
+    # round 6: constant slots; contents for the slots printed by json_to_sql need the second model printer
+    import time as _time
+    _t0 = _time.time()
+    slot_list, slot_stats = slotsh.discover()
+    dist['time/slot-discovery'] = round(_time.time() - _t0, 1)
+    rngs = common.rng_for(chk.seed, 'C04/slots')
+    slot_extra = ctrl_bodies + rngs.sample(rand_bodies, min(len(rand_bodies), 150 if quick else 3000))
+    for v in dict.fromkeys(SLOT_CORE + slot_extra):
+        lines2.append('encdq - ' + enc(v)); metas2.append(('encdq', v))
     outs2 = None
     try:
         outs2 = common.lean_run('LexHist', lines2)
     except Exception as e:
         chk.oblige('corr:driver2', 'correspondence', False, 'driver failed: %s' % e)
-    corr2 = {k: [0, 0, None] for k in ('pyspace', 'prelex', 'ident-history')}
+    corr2 = {k: [0, 0, None] for k in ('pyspace', 'prelex', 'ident-history', 'slot-print')}
+    model_dq = {}
 
     def diverge2(name, info):
         c = corr2[name]
@@ -735,6 +795,9 @@ def run(chk):
                     bump('P1t/%s/%s' % (d, 'ok' if ok else 'fail'))
                 if f:
                     record(f)
+        elif meta[0] == 'encdq':
+            if o is not None:
+                model_dq[meta[1]] = dec(o)
         elif meta[0] == 'hist':
             _, d, evs = meta
             chk.count(('hist', d, repr(evs)))
@@ -753,6 +816,42 @@ def run(chk):
             bump('P7i/%s/%s' % (d, 'fail' if f else 'ok'))
             if f:
                 record(f)
+    # P8 / slot-print: every core content in EVERY slot, the rest of the content stream spread over the slots
+    str_slots = [sl for sl in slot_list if sl['type'] == 'str']
+    dist['slots/found'] = len(slot_list)
+    dist['slots/string'] = len(str_slots)
+    for k2, v2 in slot_stats.items():
+        dist['slots/' + k2] = v2
+    jobs = []
+    for si, sl in enumerate(slot_list):
+        if sl['type'] == 'str':
+            jobs += [(sl, v) for v in SLOT_CORE]
+        else:
+            jobs += [(sl, v) for v in SLOT_NUMS[sl['type']]]
+    for i, v in enumerate(slot_extra):
+        for j in ({(i + chk.seed) % len(str_slots), (7 * i + 3 + chk.seed) % len(str_slots)} if quick else range(0, len(str_slots), 1 + i % 4)):
+            jobs.append((str_slots[j], v))
+    trees = {}
+    _t0 = _time.time()
+    for sl, v in jobs:
+        if not slot_applies(sl, v):
+            continue
+        chk.count(('slot', sl['sig'], repr(v)))
+        if sl['sig'] not in trees:
+            trees[sl['sig']] = slotsh.fill(sl, slotsh.SENT if sl['type'] == 'str' else 1)[0]
+        f, txt = probe_slot(sl, v, trees[sl['sig']])
+        bump('P8/%s' % ('fail' if f else 'ok'))
+        if f:
+            chk.classify(f, kf_match)
+            chk.fail(f)
+            trees.pop(sl['sig'], None)
+        if txt is not None and sl['type'] == 'str':
+            model = (model_enc if sl['quote'] == "'" else model_dq).get(v)
+            if model is not None:
+                corr2['slot-print'][0] += 1
+                if txt != sl['pre'] + model + sl['post']:
+                    diverge2('slot-print', dict(slot=sl['sig'], sql=sl['sql'][:200], value=v[:100], model=(sl['pre'] + model + sl['post'])[-200:], impl=txt[-200:]))
+    dist['time/slot-stream'] = round(_time.time() - _t0, 1)
     if outs2 is not None:
         for name, (cases, div, first) in corr2.items():
             chk.corr_result(name, cases, div, first)
@@ -835,7 +934,7 @@ def run(chk):
     for meta, o in list(zip(metas, outs or []))[:2]:
         chk.samples.append(dict(case=str(meta)[:200], model=o[:200]))
     chk.samples.append(dict(codec_model='Model/Codec.lean' if FIXED else 'Model/Lex.lean (old codec)', ident_model='Model/LexBq.lean' if BQ else 'Model/Lex.lean (old identifier codec)'))
-    return chk.finish(assumptions=ASSUME, extra=dict(impl_probe=dict((k, v) for k, v in dist.items() if k.startswith('P'))))
+    return chk.finish(assumptions=ASSUME, extra=dict(impl_probe=dict((k, v) for k, v in dist.items() if k.startswith(('P', 'slots/', 'time/')))))
 
 
 def replay_witness(w, kfwords=None):
@@ -845,6 +944,12 @@ def replay_witness(w, kfwords=None):
         return f
     if kind == 'history':
         return probe_history(w['template'], w['edits'])
+    if kind == 'slot':
+        v = w['value'] if w.get('value') is not None else eval(w['number'], {})
+        found = [sl for sl in slotsh.discover()[0] if sl['sig'] == w['sig']]
+        sl = found[0] if found else dict(sig=w['sig'], dialect=w['dialect'], sql=w['sql'], path=w['path'], kind=w['slotkind'],
+                                         type=type(v).__name__, quote="'", pre='', post='')
+        return probe_slot(sl, v)[0]
     if kind == 'ident-history':
         return probe_ident_history(w['dialect'], w['events'], kfwords or {})
     if kind == 'encode':
